@@ -524,7 +524,8 @@ pub fn run(env: &Env, replay: Option<&Path>) -> i32 {
     let mut report = Report::new();
     let (pairs, samples) = env.tier.pick((48u32, 200_000u32), (400, 1_000_000));
     let dist = Distribution { samples, tests: pairs };
-    let subs: [&dyn DynSub; 5] = [&Base, &ApproxExp, &BerExp, &SamplerZ, &dist];
+    let cold = crate::coldstart::ColdStart("C09");
+    let subs: [&dyn DynSub; 6] = [&Base, &ApproxExp, &BerExp, &SamplerZ, &dist, &cold];
     if let Some(p) = replay {
         if let Err(e) = replay_file(env, &subs, p, &mut report) {
             eprintln!("harness: {}", e);
@@ -542,5 +543,8 @@ pub fn run(env: &Env, replay: Option<&Path>) -> i32 {
     drive(env, &SamplerZ, env.tier.pick(1_000_000, 10_000_000), &mut report);
     drive(env, &dist, pairs as u64, &mut report);
     report.extra.insert("distribution_false_alarm_probability_per_run".into(), json!(ALPHA));
+    // fresh processes whose threads make their first calls at the same moment
+    report.notes.push(crate::coldstart::NOTE.to_string());
+    drive(env, &cold, env.tier.pick(240, 6000), &mut report);
     finish(env, report, &META)
 }
